@@ -251,10 +251,14 @@ type Model struct {
 	Principal map[string]*big.Int
 	// counts for probes
 	okCount map[string]int
+	// Strays: stake-pool records a kill / shutdown wrote under a key that is not
+	// the target's own (key -> function); remembered so that later operations on
+	// them are attributed to that defect and not reported as something new
+	Strays map[string]string
 }
 
 func NewModel(w *ledger.World) *Model {
-	return &Model{W: w, byKey: map[string]*Prov{}, byPK: map[string][]*Prov{}, Principal: map[string]*big.Int{}, okCount: map[string]int{}}
+	return &Model{W: w, byKey: map[string]*Prov{}, byPK: map[string][]*Prov{}, Principal: map[string]*big.Int{}, okCount: map[string]int{}, Strays: map[string]string{}}
 }
 
 func (m *Model) add(kind spenum.Provider, id, wallet string) *Prov {
@@ -275,6 +279,21 @@ func (m *Model) Find(kind spenum.Provider, id string) *Prov {
 		return p
 	}
 	return nil
+}
+
+// Target resolves the provider a stake request sent to `contract` names. The
+// bridge contract has a single provider kind and never looks at the
+// provider_type of a request (it always reads authorizer:stakepool:<id>), so
+// for it the kind is Authorizer whatever the request says.
+func (m *Model) Target(contract string, kind spenum.Provider, id string) *Prov {
+	if contract == ledger.AddrZCN {
+		kind = spenum.Authorizer
+	}
+	p := m.Find(kind, id)
+	if p == nil || p.Contract != contract {
+		return nil
+	}
+	return p
 }
 
 // ByID returns every registered provider with that id (any kind).
